@@ -24,6 +24,7 @@ import (
 	"github.com/nspcc-dev/neofs-node/pkg/local_object_storage/blobstor/common"
 	"github.com/nspcc-dev/neofs-node/pkg/local_object_storage/blobstor/fstree"
 	meta "github.com/nspcc-dev/neofs-node/pkg/local_object_storage/metabase"
+	"github.com/nspcc-dev/neofs-node/pkg/local_object_storage/shard/mode"
 	"github.com/nspcc-dev/neofs-node/pkg/local_object_storage/writecache"
 	apistatus "github.com/nspcc-dev/neofs-sdk-go/client/status"
 	cid "github.com/nspcc-dev/neofs-sdk-go/container/id"
@@ -46,6 +47,9 @@ func TestVerif(t *testing.T) {
 	simkit.Main(t, propC15())
 	simkit.Main(t, propC16())
 	simkit.Main(t, propC09())
+	simkit.Main(t, propC14())
+	simkit.Main(t, propC43())
+	simkit.Main(t, propC46())
 }
 
 // ---------------------------------------------------------------------------------------
@@ -165,9 +169,33 @@ func (p *storProxy) Iterate(h func(oid.Address, []byte) error, eh func(oid.Addre
 	return nil
 }
 
+func (p *storProxy) Close() error {
+	if p.w.mf.blobClose {
+		p.w.r.Fired("blob storage close fails")
+		return errSimIO
+	}
+	return p.Storage.Close()
+}
+
+func (p *storProxy) Open(ro bool) error {
+	if p.w.mf.blobOpen {
+		p.w.r.Fired("blob storage open fails")
+		return errSimIO
+	}
+	return p.Storage.Open(ro)
+}
+
 type wcProxy struct {
 	writecache.Cache
 	w *shWorld
+}
+
+func (p *wcProxy) SetMode(m mode.Mode) error {
+	if p.w.mf.wcSwitch {
+		p.w.r.Fired("write-cache mode switch fails")
+		return errSimIO
+	}
+	return p.Cache.SetMode(m)
 }
 
 func (p *wcProxy) g(op string, a oid.Address) int {
@@ -286,6 +314,8 @@ type shWorld struct {
 	fault func(key string) int
 	// expired-objects callback collects here (marks unlocked expired objects like the engine)
 	expiredSeen int
+	mf          modeFaults // component failures injected into mode switches
+	touched     map[int]bool
 }
 
 func newShWorld(r *simkit.R, cfg shCfg, nids int) *shWorld {
